@@ -125,6 +125,75 @@ def describe(t, reached, confine=False):
     return head + f"event {e} rejected"
 
 
+SEQ_CONST = 'CONSTANTS Fmts = {"zip", "tar", "7z"}\n MaxEntries = %d\n MaxSeq = %d\n Deviations = {%s}\n'
+
+
+def history_part(ctx, pool):
+    """Results are a function of the archive bytes only: sequences of archives in one interpreter
+    (forked child of an import-only zygote) vs every archive alone (ArchiveSeq / ArchiveSeqTrace)."""
+    ev, v = ctx.ev, ctx.v
+    me = 3 if ctx.thorough else 2
+    jobs = [("ArchiveSeq: reference design, all sequences of <= 2 archives: Inv_HistoryIndependent", None,
+             pool.submit(run_tlc, "ArchiveSeq", "SPECIFICATION Spec\n" + SEQ_CONST % (me, 2, "")
+                         + "INVARIANT Inv_HistoryIndependent\n", scratch=ctx.scratch, timeout=900, workers=4)),
+            ("ArchiveSeq sensitivity: deviation SharedEmptyIndices must violate Inv_HistoryIndependent", "SharedEmptyIndices",
+             pool.submit(run_tlc, "ArchiveSeq", "SPECIFICATION Spec\n" + SEQ_CONST % (2, 2, '"SharedEmptyIndices"')
+                         + "INVARIANT Inv_HistoryIndependent\n", scratch=ctx.scratch, expect_fail=True, timeout=900, workers=4))]
+    dump = ctx.scratch / "seqgen.dump"
+    rg = run_tlc("ArchiveSeq", "SPECIFICATION GenSpec\n" + SEQ_CONST % (me, 2, ""), scratch=ctx.scratch, dump=dump, heap="6g")
+    f = dump if dump.exists() else Path(str(dump) + ".dump")
+    seqs = [[{"fmt": a["fmt"], "kinds": list(a["kinds"])} for a in st["seq"]] for st in iter_dump(f)]
+    if len(seqs) != rg.distinct:
+        raise MachineryError(f"ArchiveSeq dump has {len(seqs)} states, TLC reported {rg.distinct}")
+    ev.tlc("ArchiveSeq (Gen): sequences of archives", rg)
+    seqs.sort(key=lambda q: json.dumps(q, sort_keys=True))
+    rng = random.Random(ctx.seed * 2654435761 % (1 << 31) + 17)
+    if ctx.thorough:        # all same-format pairs + a seeded third of the mixed ones
+        seqs = [q for q in seqs if len(q) < 2 or q[0]["fmt"] == q[1]["fmt"] or rng.random() < 0.34]
+    for _ in range(300 if ctx.thorough else 60):        # longer random sequences (3..5 archives, mostly 7z)
+        q = []
+        for _ in range(rng.randint(3, 5)):
+            fmt = rng.choice(["7z", "7z", "7z", "zip", "tar"])
+            kinds = [rng.choice(["doc", "doc", "emptyFile", "dir"] + (["anti"] if fmt == "7z" else []))
+                     for _ in range(rng.randint(1, 4))]
+            q.append({"fmt": fmt, "kinds": kinds})
+        seqs.append(q)
+    jobsq = [{"id": f"s{n}", "seq": q} for n, q in enumerate(seqs, start=1)]
+    nw = 12
+    procs = []
+    for w in range(nw):
+        jf, of = ctx.scratch / f"seq-job{w}.json", ctx.scratch / f"seq-out{w}.json"
+        jf.write_text(json.dumps({"wroot": str(ctx.scratch / f"seq-w{w}"), "seed": ctx.seed, "seqs": jobsq[w::nw]}))
+        procs.append((of, subprocess.Popen([PY, "-m", "mbv.c09_seq", str(jf), str(of)], env=child_env(), cwd=str(VERIF),
+                                           stdout=subprocess.PIPE, stderr=subprocess.PIPE, text=True)))
+    traces = []
+    for of, p in procs:
+        so, se = p.communicate(timeout=3000)
+        if p.returncode != 0:
+            raise MachineryError(f"history worker failed (rc={p.returncode}):\n{se[-2500:]}")
+        traces.extend(json.loads(of.read_text()))
+    traces.sort(key=lambda t: int(t["id"][1:]))
+    br = validate("ArchiveSeqTrace", "SPECIFICATION TraceSpec\nCONSTRAINT TraceAccept\n" + SEQ_CONST % (1, 1, ""), traces,
+                  scratch=ctx.scratch, parallel=8, min_chunk=300, timeout=1200)
+    ev.tlc_counts("ArchiveSeqTrace: sequence runs vs isolated runs", br.distinct, br.states, br.wall_s)
+    for t, tv in zip(traces, br.verdicts):
+        if tv.accepted:
+            v.ok(1)
+            if len(t["hdr"]["seq"]) > 1:
+                ev.nontrivial(("seq", json.dumps([(a["fmt"], a["kinds"]) for a in t["hdr"]["seq"]])))
+            continue
+        k = max(tv.reached, 0)
+        sq = [(a["fmt"], a["kinds"]) for a in t["hdr"]["seq"]]
+        v.violation(what=(f"history dependence: the sequence of archives {sq} was processed by one interpreter; archive "
+                          f"#{k + 1} {sq[min(k, len(sq) - 1)]} yielded results that differ from the results of the same bytes "
+                          f"processed alone in a fresh process (state of the reader survived from an earlier archive)"),
+                    case=t["hdr"], observed=t["ev"], where="sevenzip.py:SevenZipReader / archive_extractor.py module state")
+    ev.replayed(len(traces))
+    ev.sample({"sequence": [(a["fmt"], a["kinds"]) for a in traces[len(traces) // 2]["hdr"]["seq"]],
+               "events": traces[len(traces) // 2]["ev"]})
+    return jobs, len(traces)
+
+
 def run(ctx):
     ev, v = ctx.ev, ctx.v
     thorough = ctx.thorough
@@ -171,7 +240,8 @@ def run(ctx):
     traces = run_workers(ctx, cases, True, "c09")
     traces += run_workers(ctx, big, True, "c09big", nworkers=3, limit=0)       # the default 10 MB limit
     ctx.log(f"workers done in {time.time() - t0:.1f}s, {len(traces)} traces")
-    for name, d, fut in jobs:                      # join the TLC theorem / sensitivity runs
+    jobs2, n_seq = history_part(ctx, pool)
+    for name, d, fut in jobs + jobs2:              # join the TLC theorem / sensitivity runs
         r = fut.result()
         ev.tlc(name, r, note="expected violation" if d else "")
         if d and not r.violated:
@@ -190,7 +260,7 @@ def run(ctx):
         n_fs += fsn
         if tv.accepted:
             v.ok(1)
-            hostile = any(m["nc"] not in ("plain", "nested", "unicode") or m["kind"] not in ("doc", "dir")
+            hostile = any(m["nc"] not in ("plain", "nested", "unicode", "dotslash") or m["kind"] not in ("doc", "dir")
                           for m in t["hdr"]["members"])
             if hostile or t["hdr"]["hist"]["t"] != "Exhaust":
                 ev.nontrivial((t["hdr"]["fmt"], tuple((m["kind"], m["nc"]) for m in t["hdr"]["members"]),
@@ -207,7 +277,7 @@ def run(ctx):
                 "history), every case concretised and run; non-trivial = hostile name / special kind / early "
                 "close, abandon or throw", exhaustive=True,
            constants={"universe": "MT_C09 lists<=2, k<=2" + (" + MT_C09s lists<=3, k<=1" if thorough else ""), "cases": len(cases),
-                      "default_limit_cases": len(big), "fs_effects_recorded": n_fs})
+                      "default_limit_cases": len(big), "fs_effects_recorded": n_fs, "archive_sequences": n_seq})
     ev.assume("POSIX host (backslash and drive-letter names are ordinary file names)",
               "effects are observed through sys.addaudithook (open, os.mkdir/remove/rmdir/rename/symlink/link/scandir/"
               "listdir/chmod..., shutil.*, tempfile.*); os.stat-class calls raise no audit event and are not effects",
